@@ -56,6 +56,9 @@ static std::string g_filename(Tape &t, int kind) {
   if (kind == 3) {
     std::string server = g_name_chars(t, 5, "/\\");
     if (server.empty()) server = "srv";
+    // server and share names that software special-cases (local machine, Win32 device / extended-length prefixes)
+    if (t.chance(1, 6)) { static const std::vector<std::string> known = {"localhost", "LOCALHOST", "Localhost", "?", ".", "127.0.0.1", "[::1]", "localhost.", "%6cocalhost"}; server = t.pick(known); }
+    if (t.chance(1, 6) && !segs.empty()) { static const std::vector<std::string> first = {"C:", "c:", "C|", "UNC", "GLOBALROOT", "c$", "share"}; segs[0] = t.pick(first); }
     s = "\\\\" + server;
     if (t.chance(5, 6)) for (auto &sg : segs) s += "\\" + sg;
     return s;
@@ -73,23 +76,37 @@ static Fields gen(Tape &t) {
   int kind = t.weighted({3, 2, 3, 2, 2});
   f.seti("kind", kind);
   f.set("name", g_filename(t, kind));
+  // where the caller keeps the two strings: 0 unrelated buffers, 1 the name directly in front of the URI buffer (one
+  // arena, name first), 2 the name directly behind the URI buffer (struct { char uri[3n+8]; char name[n+1]; })
+  f.seti("layout", t.weighted({2, 1, 1}));
   return f;
 }
 
 static GuardBuf &gb1() { static GuardBuf g(320); return g; }  // 1.25 MiB: names of 2^16 characters, tripled, four bytes wide
 static GuardBuf &gb2() { static GuardBuf g(320); return g; }
 
-template <class A> static Verdict check_type(const std::string &name, int kind) {
+template <class A> static Verdict check_type(const std::string &name, int kind, int layout = 0) {
   using Ch = typename A::Ch;
   bool unix_ = kind <= 1;
   bool absolute = kind == 0 || kind == 2 || kind == 3;
   size_t n = name.size();
   size_t cap = (absolute ? (unix_ ? 7 : 8) : 0) + 3 * n + 1;
-  if (cap * sizeof(Ch) > gb1().capacity()) return Verdict::discard();  // harness limit (guard buffer)
+  if ((cap + n + 1) * sizeof(Ch) > gb1().capacity()) return Verdict::discard();  // harness limit (guard buffer)
   std::basic_string<Ch> in = widen<Ch>(name);
   Ch *uri = gb1().template right_chars<Ch>(cap);
+  const Ch *inp = in.c_str();
+  if (layout == 2) {  // [ uri | name ] flush against the guard page
+    uri = gb1().template right_chars<Ch>(cap + n + 1);
+    memcpy(uri + cap, in.c_str(), (n + 1) * sizeof(Ch));
+    inp = uri + cap;
+  } else if (layout == 1) {  // [ name | uri ]
+    Ch *at = gb1().template right_chars<Ch>(cap + n + 1);
+    memcpy(at, in.c_str(), (n + 1) * sizeof(Ch));
+    inp = at;
+  }
   for (size_t i = 0; i < cap; i++) uri[i] = (Ch)0xAA;
-  int rc = unix_ ? A::UnixFilenameToUriString(in.c_str(), uri) : A::WindowsFilenameToUriString(in.c_str(), uri);
+  int rc = unix_ ? A::UnixFilenameToUriString(inp, uri) : A::WindowsFilenameToUriString(inp, uri);
+  if (layout) VF_REQUIRE(memcmp(inp, in.c_str(), (n + 1) * sizeof(Ch)) == 0, "%s: the file name next to the URI buffer was modified", A::name());
   stats().sub_evaluations++;
   VF_REQUIRE(rc == 0, "%s: filename->URI rc=%d", A::name(), rc);
   size_t len = 0;
@@ -152,11 +169,12 @@ static bool in_domain(const std::string &name, int kind) {
   return !(name.size() >= 2 && name[1] == ':') && name.compare(0, 2, "\\\\") != 0;
 }
 
-static Verdict check_one(const std::string &name, int kind) {
+static Verdict check_one(const std::string &name, int kind, int layout = 0) {
   if (!in_domain(name, kind)) return Verdict::discard();
-  Verdict v = check_type<Api<char>>(name, kind);
+  Verdict v = check_type<Api<char>>(name, kind, layout);
   if (v.kind != Verdict::PASS) return v;
-  v = check_type<Api<wchar_t>>(name, kind);
+  v = check_type<Api<wchar_t>>(name, kind, layout);
+  if (layout) stats().hit("layout=" + std::to_string(layout));
   if (v.kind != Verdict::PASS) return v;
   static const char *kn[] = {"unix_absolute", "unix_relative", "windows_drive", "windows_unc", "windows_relative"};
   stats().hit(kn[kind]);
@@ -165,7 +183,7 @@ static Verdict check_one(const std::string &name, int kind) {
   if (needsEsc || seps >= 2) stats().nontrivial(std::to_string(kind) + name, std::string(kn[kind]) + ": " + esc(name));
   return Verdict::pass();
 }
-static Verdict check(const Fields &f) { return check_one(f.get("name"), (int)f.geti("kind")); }
+static Verdict check(const Fields &f) { return check_one(f.get("name"), (int)f.geti("kind"), (int)f.geti("layout")); }
 
 // exhaustive: every name up to length L over {a C : \ / space % .}, judged in every class it belongs to
 static Verdict enumerate(int tier, int shard, int nshards, Fields *failing) {
